@@ -835,3 +835,14 @@ mutant("rti-read-end-defaults-to-start",
 mutant("rti-assign-end-defaults-to-rhs-len",
        [(B, "        match container::resolve_list_assign_range(list_len, start, end) {", "        match container::resolve_list_assign_range(list_len, start, end.or(Some(rhs_items.len()))) {")],
        [("C11", "R11.5")], base=RTI, note="container module + an omitted assignment end defaults to the length of the assigned list")
+
+RTS = "refactors/t-scopeapi/patch.diff"
+mutant("rts-with-new-scope-does-not-push",
+       [(SC, "        chain.push(Arc::new(Mutex::new(Scope::new())));\n", "        if chain.is_empty() {\n            chain.push(Arc::new(Mutex::new(Scope::new())));\n        }\n")],
+       [("C04", "R04.4")], also=[("C20", "R20.6")], base=RTS, note="callback-style pusher + a new scope is only opened on an empty chain")
+mutant("rts-new-bindings-assigned",
+       [(E, "            bind::bind(context, scopes, &lhs, rhs, BindType::Declaration)\n                .context(BindFailed)?;", "            bind::bind(context, scopes, &lhs, rhs, BindType::Assignment)\n                .context(BindFailed)?;")],
+       [("C14", "R14.4")], base=RTS, note="callback-style pusher + parameters are assigned instead of declared")
+mutant("rts-capture-copies-scopes",
+       [(SC, "        ScopeStack(self.0.clone())\n    }\n\n    // `declare`", "        ScopeStack(self.0.iter().map(|s| Arc::new(Mutex::new(s.try_lock().unwrap().clone()))).collect())\n    }\n\n    // `declare`")],
+       [("C04", "R04.1")], also=[("C04", "R04.2")], base=RTS, note="capture() + closures capture a deep copy of the scopes (capture by value)")
